@@ -15,9 +15,16 @@
 #include "hex.hpp"
 #include "hexsimio.hpp"
 
+#ifdef HEX_VERIF
+struct HexVerifAccess; // Verification harness accessor (see /verif).
+#endif
+
 namespace hexsim {
 
 class Processor {
+#ifdef HEX_VERIF
+  friend struct ::HexVerifAccess;
+#endif
 
   // Constants.
   static const size_t MEMORY_SIZE_WORDS = hex::MAX_MEMORY_SIZE_WORDS;
